@@ -313,7 +313,7 @@ func buildCatalogue() []item {
 			d.specs[0].EKURaw = []asn1.ObjectIdentifier{pki.OIDUnknownEKU, pki.EKUOID(e.e)}
 		})
 	}
-	for _, k := range []string{"rsa1024", "rsa1536", "rsa2560", "rsa3584", "p224", "ed25519"} {
+	for _, k := range []string{"rsa1024", "rsa1536", "rsa2560", "rsa3584", "rsa2049", "rsa3073", "rsa4097", "p224", "ed25519"} {
 		k := k
 		add("leaf-key-"+k, false, leafOnly, func(d *desc, pos int) { d.specs[0].Key = pki.K(k, 0) })
 	}
